@@ -169,3 +169,75 @@ V('C13-evar-deconstruct-truthiness', 'C13', [(PT, '    if (pat_evar is not None)
 V('C13-rebinds-bound-metavar', 'C13', [(PT, '        if id in ret:\n            if ret[id] != instance:\n                return None\n        else:', '        if id in ret:\n            ret[id] = instance\n        else:')], names='bound-metavariable')
 V('C13-twin-tuple-truthiness-fixed-len', 'C13', [(PT, '    if (pat_ex := Exists.deconstruct(pattern)) and (inst_ex := Exists.deconstruct(instance)):', '    pat_ex = Exists.deconstruct(pattern)\n    inst_ex = Exists.deconstruct(instance)\n    if pat_ex and inst_ex:')], expect='silent')
 V('C13-twin-is-not-none', 'C13', [(PT, '        if submatch is None:\n            return None', '        if submatch is not None:\n            ret = submatch\n            continue\n        return None')], expect='silent')
+
+# ---------------------------------------------------------------- C03
+PR = PG + 'proof.py'
+OI = PG + 'optimizing_interpreters.py'
+V('C03-axioms-sliced', 'C03', [(PR, '        for axiom in self._axioms:\n            interpreter.publish_axiom(interpreter.pattern(axiom))', '        for axiom in self._axioms[1:]:\n            interpreter.publish_axiom(interpreter.pattern(axiom))')], names='execute_gamma_phase')
+V('C03-claims-set', 'C03', [(PR, '        for claim in reversed(self._claims):', '        for claim in reversed(list(dict.fromkeys(self._claims))[:-1]):')], names='execute_claims_phase')
+V('C03-publishes-other-pattern', 'C03', [(PR, '            interpreter.publish_claim(interpreter.pattern(claim))', '            interpreter.publish_claim(interpreter.pattern(self._claims[0]))')], names='execute_claims_phase')
+V('C03-memoizer-publishes', 'C03', [(OI, '            ret = super().pattern(p)\n            self.save(repr(p), p)\n            return ret', '            ret = super().pattern(p)\n            self.save(repr(p), p)\n            self.publish_axiom(ret)\n            return ret')], names='publish_axiom')
+V('C03-optimizer-overrides-publish', 'C03', [(OI, 'class MemoizingInterpreter(InterpreterTransformer):', 'class MemoizingInterpreter(InterpreterTransformer):\n    def publish_claim(self, term: Pattern) -> None:\n        if term not in self._patterns_for_memoization:\n            self.sub_interpreter.publish_claim(term)\n')], names='MemoizingInterpreter.publish_claim')
+V('C03-symbol-table-reset', 'C03', [(SER, '    def evar(self, id: int) -> Pattern:\n        ret = super().evar(id)', '    def into_proof_phase(self) -> None:\n        super().into_proof_phase()\n        self._symbol_identifiers = {}\n\n    def evar(self, id: int) -> Pattern:\n        ret = super().evar(id)')], names='created-once')
+V('C03-id-masked', 'C03', [(SER, '        self.out.write(bytes([Instruction.Symbol, id]))', '        self.out.write(bytes([Instruction.Symbol, id % 256]))')], names='bounded-write')
+V('C03-id-not-len', 'C03', [(SER, '            self._symbol_identifiers[name] = len(self._symbol_identifiers)', '            self._symbol_identifiers[name] = hash(name) % 256')], names='fresh-id-is-len')
+V('C03-two-serializers', 'C03', [(PR, '            self.execute_full(MemoizingInterpreter(serializer, analyzer.finalize()))', '            self.execute_full(MemoizingInterpreter(self.get_serializing_interpreter(output_format, ExecutionPhase.Gamma, claims, file_path), analyzer.finalize()))')], names='one-serializer')
+V('C03-twin-loop-var-renamed', 'C03', [(PR, '        for axiom in self._axioms:\n            interpreter.publish_axiom(interpreter.pattern(axiom))', '        for ax in self._axioms:\n            interpreter.publish_axiom(interpreter.pattern(ax))')], expect='silent')
+
+# ---------------------------------------------------------------- C09
+V('C09-swap-in-inner-loop', 'C09', [(TT, '                    left, right = (cl2, cl1) if resolvant < 0 else (cl1, cl2)\n                    hint[res_set] = ResolutionHintSource(left, right, abs(resolvant))', '                    if resolvant < 0:\n                        cl1, cl2 = cl2, cl1\n                        resolvant = -resolvant\n                    hint[res_set] = ResolutionHintSource(cl1, cl2, resolvant)')], names='outer-element-stable')
+V('C09-resolvents-not-appended', 'C09', [(TT, '                    l.append(res_set)\n        return False', '                    pass\n        return False')], names='resolvents-rejoin')
+V('C09-inner-over-copy', 'C09', [(TT, '        for cl1 in l:\n            for cl2 in l:\n                if cl2 == cl1:', '        for cl1 in l:\n            for cl2 in list(l)[:2]:\n                if cl2 == cl1:')], names='same-collection')
+V('C09-twin-swap-then-break', 'C09', [(TT, '                    if not res_set:\n                        return True\n                    l.append(res_set)', '                    if not res_set:\n                        cl1 = res_set\n                        return True\n                    l.append(res_set)')], expect='silent')
+
+# ---------------------------------------------------------------- C15
+CV = PG + 'metamath/converter/converter.py'
+V('C15-digit-table-gap', 'C15', [(CV, "            'K': 11,\n            'L': 12,", "            'K': 11,\n            'L': 11,")], names='digit-table')
+V('C15-ms-table-shifted', 'C15', [(CV, "msdigit = {'U': 1, 'V': 2, 'W': 3, 'X': 4, 'Y': 5}", "msdigit = {'U': 0, 'V': 1, 'W': 2, 'X': 3, 'Y': 4}")], names='most-significant')
+V('C15-numbering-from-set', 'C15', [(CV, '            for metavar in ordered_metavars:', '            for metavar in metavars:')], names='numbering-loop')
+V('C15-numbering-sorted', 'C15', [(CV, '            for metavar in ordered_metavars:', '            for metavar in sorted(metavars):')], names='numbering-loop')
+V('C15-numbering-from-0', 'C15', [(CV, '            metavars_id = 1\n', '            metavars_id = 0\n')], names='numbering-from-1')
+V('C15-twin-tuple-comprehension', 'C15', [(CV, '            ordered_metavars = [var for var in self._floating_patterns if var in metavars]', '            ordered_metavars = list(var for var in self._floating_patterns if var in metavars)')], expect='silent')
+
+# ---------------------------------------------------------------- C17
+MA = PG + 'metamath/ast.py'
+MS = PG + 'metamath/metamath_extract_slice.py'
+V('C17-encoder-handler-missing', 'C17', [(MA, '    def postvisit_disjoint_statement(self, disjoint_statement: DisjointStatement) -> None:', '    def postvisit_disjoint_stmt(self, disjoint_statement: DisjointStatement) -> None:')], names='DisjointStatement')
+V('C17-essential-letter-wrong', 'C17', [(MA, "        elif isinstance(stmt, EssentialStatement):\n            return 'e'", "        elif isinstance(stmt, EssentialStatement):\n            return 'a'")], names='EssentialStatement')
+V('C17-keyword-mismatch', 'C17', [(MA, "        self.write('$v')", "        self.write('$c')")], names='variable_stmt')
+V('C17-letter-chain-drops-provable', 'C17', [(MA, "        elif isinstance(stmt, ProvableStatement):\n            return 'p'\n", '')], names='ProvableStatement')
+V('C17-slicer-constant-assert', 'C17', [(MS, "            raise AssertionError(f'Unanticipated statement type: {type(statement)}')", "            assert 'Unanticipated statement type', type(statement)")], names='slice_database')
+V('C17-twin-letter-chain-reordered', 'C17', [(MA, "        if isinstance(stmt, FloatingStatement):\n            return 'f'\n        elif isinstance(stmt, EssentialStatement):\n            return 'e'", "        if isinstance(stmt, EssentialStatement):\n            return 'e'\n        elif isinstance(stmt, FloatingStatement):\n            return 'f'")], expect='silent')
+
+# ---------------------------------------------------------------- C18
+CI = PG + 'counting_interpreter.py'
+V('C18-sorted-removed-in-numbering', 'C18', [(CV, '            for metavar in ordered_metavars:', '            for metavar in metavars:')], names='_import_proof')
+V('C18-symbol-table-from-set', 'C18', [(SER, '    def evar(self, id: int) -> Pattern:\n        ret = super().evar(id)', '    def preload(self, names: set[str]) -> None:\n        for n in names:\n            self._symbol_identifiers[n] = len(self._symbol_identifiers)\n\n    def evar(self, id: int) -> Pattern:\n        ret = super().evar(id)'), (PR, '        if optimize:\n            analyzer = CountingInterpreter(ExecutionPhase.Gamma, claims)', '        if hasattr(serializer, "preload"):\n            serializer.preload({str(a) for a in self._axioms})\n        if optimize:\n            analyzer = CountingInterpreter(ExecutionPhase.Gamma, claims)')], names='preload')
+V('C18-suggestions-listed', 'C18', [(CI, '        self._finalized = True\n        return self.suggested_for_memoization', '        self._finalized = True\n        self._order = list(self._suggested_for_memoization)\n        return self.suggested_for_memoization')], names='_suggested_for_memoization')
+V('C18-module-level-cache', 'C18', [(OI, 'class InstantiationOptimizer(InterpreterTransformer):', '_SEEN: dict = {}\n\n\nclass InstantiationOptimizer(InterpreterTransformer):'), (OI, '    def pattern(self, p: Pattern) -> Pattern:\n', '    def pattern(self, p: Pattern) -> Pattern:\n        _SEEN[id(p)] = p\n')], names='cross-run-state')
+V('C18-mutable-default', 'C18', [(PR, '    def add_axioms(self, axioms: list[Pattern]) -> None:', '    def add_axioms(self, axioms: list[Pattern] = []) -> None:')], names='default')
+V('C18-twin-sorted-iteration', 'C18', [(PG + 'interpreter.py', '        return list(self._interpreting_warnings)', '        return sorted(self._interpreting_warnings)')], expect='silent')
+
+# ---------------------------------------------------------------- C19
+KO = PG + 'proofs/kore.py'
+PPI = PG + 'pretty_printing_interpreter.py'
+V('C19-format-drops-argument', 'C19', [(KO, "kore_not = Notation('kore-not', 2, _and(neg(phi1), kore_top(phi0)), '(k¬{1}):{0}')", "kore_not = Notation('kore-not', 2, _and(neg(phi1), kore_top(phi0)), '(k¬{1})')")], names='kore-not')
+V('C19-fstring-consumes-placeholder', 'C19', [(PG + 'proofs/substitution.py', "f'(∀ x{var} . {{0}})'", "f'(∀ x{var} . {0})'")], names='forall')
+V('C19-definition-uses-more', 'C19', [(KO, "kore_next = Notation('kore-next', 2, App(kore_next_symbol, phi1), '♦{1}')", "kore_next = Notation('kore-next', 2, App(App(kore_next_symbol, phi0), phi1), '♦{1}')")], names='kore-next')
+V('C19-pretty-label-wrong', 'C19', [(PPI, "        self.out.write('Quantifier')", "        self.out.write('Existence')")], names='exists_quantifier')
+V('C19-pretty-not-decorated', 'C19', [(PPI, "    @pretty()\n    def app(self, left: Pattern, right: Pattern) -> None:\n        self.out.write('App')", "    def app(self, left: Pattern, right: Pattern) -> Pattern:\n        return super().app(left, right)")], names='app')
+V('C19-nary-placeholder-skipped', 'C19', [(KO, "        fmt_args.append('{' + str(i) + '}')", "        if i > 0:\n            fmt_args.append('{' + str(i) + '}')")], expect='silent')   # see note: still couples i with its placeholder; kept as twin guard
+V('C19-twin-unused-arg-omitted', 'C19', [(KO, "kore_top = Notation('kore-top', 1, App(inhabitant_symbol, phi0), 'k⊤:{0}')", "kore_top = Notation('kore-top', 1, App(inhabitant_symbol, phi0), 'k⊤ {0}')")], expect='silent')
+
+# ---------------------------------------------------------------- C20
+KE = PG + 'k/execution_proof_generation.py'
+KS = PG + 'k/kore_convertion/language_semantics.py'
+V('C20-config-updated-before-check', 'C20', [(KE, "        lhs = match[1]\n        rhs = match[2]\n", "        lhs = match[1]\n        rhs = match[2]\n        self._curr_config = rhs\n")], names='config-after-guard')
+V('C20-compares-initial-config', 'C20', [(KE, '            lhs == self.current_configuration\n', '            lhs == self.initial_configuration\n')], names='lhs-equals-current-configuration')
+V('C20-claims-uninstantiated-rule', 'C20', [(KE, '        self.add_claim(instantiated_axiom)', '        self.add_claim(rule.pattern)')], names='claim-is-instantiated-rule')
+V('C20-next-config-is-lhs', 'C20', [(KE, '        self._curr_config = rhs\n        return proof', '        self._curr_config = lhs\n        return proof')], names='next-configuration-is-rhs')
+V('C20-sort-param-base-dropped', 'C20', [(KS, 'MetaVar(name=self.SORT_PARAM_METAVAR + len(self._sort_param_metavars))', 'MetaVar(name=len(self._sort_param_metavars))')], names='disjoint-ranges')
+V('C20-allocator-no-guard', 'C20', [(KS, "        if name not in self._evars:\n            self._evars[name] = EVar(name=len(self._evars))\n        return self._evars[name]", "        self._evars[name] = EVar(name=len(self._evars))\n        return self._evars[name]")], names='resolve_evar')
+V('C20-substitutions-resolve', 'C20', [(KS, '            name = scope.lookup_metavar(var_name).name', '            name = scope.resolve_metavar(var_name).name')], names='convert_substitutions')
+V('C20-scope-shared-between-axioms', 'C20', [(KS, "                                scope = ConvertionScope()\n                                parsed_pattern = semantics._convert_pattern(scope, preprocessed_pattern)", "                                parsed_pattern = semantics._convert_pattern(scope, preprocessed_pattern)")], names='scope-per-axiom')
+V('C20-twin-if-raise', 'C20', [(KE, "        assert (\n            lhs == self.current_configuration\n        ), f'The current configuration {lhs.pretty(self.pretty_options())} does not match the lhs of the rule {rule.pattern.pretty(self.pretty_options())}'", "        if not (lhs == self.current_configuration):\n            raise AssertionError('The current configuration does not match the lhs of the rule')")], expect='silent')
